@@ -26,6 +26,8 @@ pub enum OpResult {
     /// the uplink was refused because it does not fit a frame
     TooLarge,
     StateErr(String),
+    /// nb: the power was cut in the middle of the procedure; the device was rebuilt from the session stored then
+    PowerCut,
     /// Listen: results of the successive `rxc_listen` calls; the last (pending) call is dropped
     Listened(Vec<OpResult>),
     /// settings calls
@@ -524,6 +526,21 @@ impl<const P: u8, const G: i8, const N: usize, const D: usize> NbDut<P, G, N, D>
                         NbStage::WaitRx2Start => NbStage::InRx2,
                         NbStage::InRx2 => NbStage::InRx2,
                     };
+                    let cut = self.env.borrow().txn.nb_power_cut;
+                    if (cut == Some(1) && stage == NbStage::WaitRx1Start) || (cut == Some(2) && stage == NbStage::WaitRx2Start) {
+                        // between two events of the procedure the application stores the session; then the power goes
+                        if let Some(json) = self.session_json() {
+                            let (dr, adr) = (self.dev.get_datarate(), self.dev.get_adr());
+                            if let Ok(sess) = parse_session(&self.env, &json) {
+                                self.env.borrow_mut().push(Ev::Note(format!("power cut in the middle of the procedure ({stage:?}); device restored from the session stored at that moment")));
+                                self.env.borrow_mut().bump("probe.nb-mid-procedure-power-cut");
+                                self.dev = Self::build(&self.env, Some(sess));
+                                self.dev.set_datarate(dr);
+                                self.dev.set_adr(adr);
+                                return OpResult::PowerCut;
+                            }
+                        }
+                    }
                 }
                 Ok(R::NoUpdate) => {}
                 Err(nb_device::Error::Radio(_)) => {
